@@ -1,5 +1,9 @@
 import Lean.Data.Json
 import B2Z.Model.Arith
+import B2Z.Model.RegionIndex
+import B2Z.Model.Plink
+import B2Z.Model.LocalAlleles
+import B2Z.Model.Sched
 /-! JSON line-protocol driver: one request object per line in, one JSON value per line out.
     Only `Model.*` (core Lean) is imported, so this also builds as a native executable. -/
 open Lean
@@ -18,6 +22,53 @@ def reqNat (j : Json) (k : String) : Except String Nat := do
 def pairsJson (ps : List (Nat × Nat)) : Json :=
   Json.arr (ps.map fun (a, b) => Json.arr #[Json.num a, Json.num b]).toArray
 
+def reqInt (j : Json) (k : String) : Except String Int := do
+  let v ← j.getObjVal? k
+  v.getInt?
+
+def reqArr (j : Json) (k : String) : Except String (Array Json) := do
+  let v ← j.getObjVal? k
+  v.getArr?
+
+def intList (v : Json) : Except String (List Int) := do
+  let a ← v.getArr?
+  a.toList.mapM (·.getInt?)
+
+def natList (v : Json) : Except String (List Nat) := do
+  let a ← v.getArr?
+  a.toList.mapM (·.getNat?)
+
+def intsJson (xs : List Int) : Json := Json.arr (xs.map fun x => Json.num (JsonNumber.fromInt x)).toArray
+def natsJson (xs : List Nat) : Json := Json.arr (xs.map fun x => Json.num (JsonNumber.fromNat x)).toArray
+def optJson (f : α → Json) : Option α → Json
+  | none => Json.str "error"
+  | some x => f x
+
+def parseOutcome (v : Json) : Except String Sched.Outcome := do
+  match v with
+  | .str "ok" => pure .ok
+  | .str "die" => pure .die
+  | _ => let e ← v.getNat?; pure (.raise e)
+
+def parseRes (v : Json) : Except String Sched.Res := do
+  match v with
+  | .str "ok" => pure .ok
+  | .str "broken" => pure .broken
+  | .str "cancelled" => pure .cancelled
+  | _ => let e ← v.getNat?; pure (.exc e)
+
+def verdictJson : Sched.Verdict → Json
+  | .ok => Json.str "ok"
+  | .runtimeError => Json.str "RuntimeError"
+  | .cancelledError => Json.str "CancelledError"
+  | .taskError e => Json.num e
+
+def resJson : Sched.Res → Json
+  | .ok => Json.str "ok"
+  | .broken => Json.str "broken"
+  | .cancelled => Json.str "cancelled"
+  | .exc e => Json.num e
+
 def handle (j : Json) : Except String Json := do
   let op ← (← j.getObjVal? "op").getStr?
   match op with
@@ -30,6 +81,68 @@ def handle (j : Json) : Except String Json := do
     let n ← reqNat j "n"; let c ← reqNat j "c"; let p ← reqNat j "p"
     if c = 0 ∨ min p (B2Z.numChunks n c (optNat j "m")) = 0 then pure (Json.str "error")
     else pure (pairsJson (B2Z.chunkAlignedSlices n c p (optNat j "m")))
+  | "ridx.index" =>
+    let bits ← reqNat j "bits"; let cs ← reqNat j "cs"
+    let recs ← (← reqArr j "recs").toList.mapM fun r => do
+      let l ← intList r
+      pure ({ contig := l.getD 0 0, pos := l.getD 1 0, len := l.getD 2 0 } : RIdx.Rec)
+    let rows := RIdx.regionIndexI32 bits cs recs
+    pure (Json.arr (rows.map fun r => intsJson [r.chunk, r.contig, r.first, r.last, r.maxEnd, r.count]).toArray)
+  | "bed.encode" =>
+    let pad ← reqNat j "pad"
+    let rows ← (← reqArr j "rows").toList.mapM natList
+    pure (Json.arr (rows.map fun r => natsJson (Plink.encodeRow pad (r.map Plink.G.ofCode))).toArray)
+  | "bed.decode" =>
+    let n ← reqNat j "n"
+    let rows ← (← reqArr j "rows").toList.mapM natList
+    pure (Json.arr (rows.map fun r => natsJson ((Plink.decodeRow n r).map Plink.G.code)).toArray)
+  | "plink.convert" =>
+    -- rows: per variant the list of 2-bit codes; order: list of [start, stop] slices as executed
+    let cs ← reqNat j "cs"
+    let rows ← (← reqArr j "rows").toList.mapM natList
+    let order ← (← reqArr j "order").toList.mapM fun v => do
+      let l ← natList v; pure (l.getD 0 0, l.getD 1 0)
+    let arr := Plink.convert cs (rows.map fun r => r.map Plink.G.ofCode) order
+    let out := (List.range rows.length).map fun i =>
+      match arr i with
+      | none => Json.null
+      | some r => Json.mkObj [
+          ("gt", Json.arr (r.gt.map fun (a, b) => intsJson [a, b]).toArray),
+          ("mask", Json.arr (r.mask.map fun (a, b) => Json.arr #[Json.bool a, Json.bool b]).toArray),
+          ("phased", Json.arr (r.phased.map Json.bool).toArray)]
+    pure (Json.arr out.toArray)
+  | "la.laa" =>
+    let alt ← reqNat j "alt"
+    let gts ← (← reqArr j "gts").toList.mapM intList
+    pure (Json.arr ((LA.laaField alt gts).map intsJson).toArray)
+  | "la.lpl" =>
+    -- per sample: laa row and pl row (VCF-missing already -1); "pl": null means PL absent on the record
+    let ploidy ← reqNat j "ploidy"
+    let laa ← (← reqArr j "laa").toList.mapM intList
+    match j.getObjVal? "pl" with
+    | .ok (.arr pls) =>
+      let pls ← pls.toList.mapM intList
+      let rows := (laa.zip pls).map fun (l, p) => LA.lplRow ploidy l p
+      if ploidy ≠ 1 ∧ ploidy ≠ 2 then pure (Json.str "error")
+      else if rows.any Option.isNone then pure (Json.str "error")
+      else pure (Json.arr (rows.map fun r => intsJson (r.getD [])).toArray)
+    | _ =>
+      match LA.lplWidth ploidy ((laa.headD []).length) with
+      | none => pure (Json.str "error")
+      | some w => pure (Json.arr (laa.map fun _ => intsJson (List.replicate w LA.MISSING)).toArray)
+  | "sched.wait" =>
+    let evs ← (← reqArr j "events").toList.mapM parseRes
+    let body := optNat j "body"
+    let r := Sched.waitOnFutures evs
+    pure (Json.mkObj [("verdict", verdictJson (Sched.managerExit body evs)), ("consumed", Json.num r.2)])
+  | "sched.command" =>
+    let outs ← (← reqArr j "outcomes").toList.mapM parseOutcome
+    let w ← reqNat j "w"
+    let sched ← natList (← j.getObjVal? "sched")
+    let out : Nat → Sched.Outcome := fun t => outs.getD t .ok
+    let evs := Sched.poolRun out outs.length w sched
+    pure (Json.mkObj [("verdict", verdictJson (Sched.command out outs.length w sched)),
+      ("events", Json.arr (evs.map fun (t, r) => Json.arr #[Json.num t, resJson r]).toArray)])
   | _ => throw s!"unknown op {op}"
 
 def handleLine (line : String) : String :=
